@@ -40,6 +40,12 @@ pub fn cfg_tenant(k: &str) -> &str {
     match k { "kn1" => "n1", "kn2" => "n2", _ => "" }
 }
 
+/// the namespace a model instance key lives in (InstTenant of StateMachine.tla as the simulation configurations override
+/// it): the services named sn<i> live in the namespace n<i>, all others in the default namespace
+pub fn inst_tenant(svc: &str) -> &str {
+    match svc { "sn1" => "n1", "sn2" => "n2", _ => SVC_NS }
+}
+
 fn cfg_key(k: &str) -> String {
     let t = cfg_tenant(k);
     if t.is_empty() { format!("{}\u{2}{}", k, GROUP) } else { format!("{}\u{2}{}\u{2}{}", k, GROUP, t) }
@@ -53,6 +59,7 @@ pub fn to_client_request(r: &Value, index: u64) -> Value {
             "history_id": r["hid"], "history_table_id": r["hid"], "op_time": 1000 + index, "op_user": null}}),
         "cfg_del" => json!({"ConfigRemove": {"key": cfg_key(k)}}),
         "ns_set" => json!({"NamespaceReq": {"Set": {"namespace_id": k, "namespace_name": opt_str(&r["v"]), "type": null}}}),
+        "ns_upd" => json!({"NamespaceReq": {"Update": {"namespace_id": k, "namespace_name": opt_str(&r["v"]), "type": null}}}),
         "ns_del" => json!({"NamespaceReq": {"Delete": {"id": k}}}),
         "usr_set" => json!({"TableManagerReq": {"Set": {"table_name": "T_USER", "key": k.as_bytes(), "value": user_bytes(k, r["v"].as_str().unwrap_or("")), "last_seq_id": null}}}),
         "usr_del" => json!({"TableManagerReq": {"Remove": {"table_name": "T_USER", "key": k.as_bytes()}}}),
@@ -63,7 +70,7 @@ pub fn to_client_request(r: &Value, index: u64) -> Value {
         "nam_set" => {
             let (svc, ip, port) = inst_parts(k);
             let param = json!({"ip": ip, "port": port, "weight": r["w"].as_f64().unwrap_or(1.0), "enabled": r["en"].as_bool().unwrap_or(true),
-                "healthy": true, "ephemeral": false, "metadata": {"m": format!("w{}", r["w"])}, "namespace_id": SVC_NS, "group_name": "DEFAULT_GROUP",
+                "healthy": true, "ephemeral": false, "metadata": {"m": format!("w{}", r["w"])}, "namespace_id": inst_tenant(&svc), "group_name": "DEFAULT_GROUP",
                 "service_name": svc, "cluster_name": "DEFAULT", "app_name": null, "last_modified_millis": 1000 + index});
             if r["upd"].as_bool().unwrap_or(false) {
                 json!({"NamingReq": {"req": {"UpdateInstance": {"param": param}}}})
@@ -73,7 +80,7 @@ pub fn to_client_request(r: &Value, index: u64) -> Value {
         }
         "nam_del" => {
             let (svc, ip, port) = inst_parts(k);
-            json!({"NamingReq": {"req": {"RemoveInstance": {"namespaceId": SVC_NS, "groupName": "DEFAULT_GROUP", "serviceName": svc, "ip": ip, "port": port}}}})
+            json!({"NamingReq": {"req": {"RemoveInstance": {"namespaceId": inst_tenant(&svc), "groupName": "DEFAULT_GROUP", "serviceName": svc, "ip": ip, "port": port}}}})
         }
         "cch_set" => json!({"CacheReq": {"req": {"Set": {"key": {"cache_type": "String", "key": k}, "value": {"String": r["v"]}, "ttl": -1, "now": 0,
             "nx": r["m"] == "nx", "xx": r["m"] == "xx"}}}}),
@@ -172,7 +179,7 @@ pub fn project(dump: &Value) -> Value {
     let mut nam = Map::new();
     for (k, v) in as_map(&dump["nam"]) {
         let p: Vec<&str> = k.splitn(4, '|').collect();
-        let name = if p.len() == 4 { format!("{}:{}", p[2], p[3]) } else { k.clone() };
+        let name = if p.len() == 4 && p[0] == inst_tenant(p[2]) { format!("{}:{}", p[2], p[3]) } else { k.clone() };
         let w = v["weight"].as_f64().unwrap_or(0.0);
         nam.insert(name, json!({"w": w as i64, "en": v["enabled"]}));
     }
@@ -230,7 +237,32 @@ pub fn get_dump(node: &mut NodeProc) -> anyhow::Result<Value> {
     if r["res"] != "ok" {
         return Err(anyhow::anyhow!("dump failed: {}", r));
     }
-    Ok(r["dump"].clone())
+    let mut dump = r["dump"].clone();
+    unjudged_naming_marks(&mut dump);
+    Ok(dump)
+}
+
+/// The NAMING mark of a namespace (set by the service index as soon as a service exists in it) is judged only where a
+/// PERSISTENT instance lives in the namespace - replicated state, which StateMachine.tla specifies (InstTenant,
+/// TenantsInUse).  A service without persistent instances (an emptied service waiting for its timed clean-up) is node-local
+/// bookkeeping that a restart legitimately forgets: its mark is taken out of the dump, and a namespace listed for no
+/// other reason with it.
+fn unjudged_naming_marks(dump: &mut Value) {
+    const NAMING: u64 = 0b1000;
+    let used: std::collections::HashSet<String> = as_map(&dump["nam"]).keys().map(|k| k.split('|').next().unwrap_or("").to_string()).collect();
+    if let Some(ns) = dump["ns"].as_object_mut() {
+        let ids: Vec<String> = ns.keys().cloned().collect();
+        for id in ids {
+            let flag = ns[&id]["flag"].as_u64().unwrap_or(0);
+            if flag & NAMING != 0 && !used.contains(&id) {
+                if flag & !NAMING == 0 {
+                    ns.remove(&id);
+                } else {
+                    ns[&id]["flag"] = json!(flag & !NAMING);
+                }
+            }
+        }
+    }
 }
 
 pub fn first_diff(a: &Value, b: &Value) -> String {
@@ -748,7 +780,8 @@ fn random_model_request(rng: &mut rand::rngs::StdRng, hid: &mut u64) -> Value {
             json!({"t":"cfg_set","k":ck.choose(rng).unwrap(),"v":contents.choose(rng).unwrap(),"hid":*hid,"ty":tys.choose(rng).unwrap(),"ds":dss.choose(rng).unwrap()})
         }
         40..=49 => json!({"t":"cfg_del","k":ck.choose(rng).unwrap()}),
-        50..=57 => json!({"t":"ns_set","k":ns.choose(rng).unwrap(),"v":names.choose(rng).unwrap()}),
+        50..=54 => json!({"t":"ns_set","k":ns.choose(rng).unwrap(),"v":names.choose(rng).unwrap()}),
+        55..=57 => json!({"t":"ns_upd","k":ns.choose(rng).unwrap(),"v":names.choose(rng).unwrap()}),
         58..=61 => json!({"t":"ns_del","k":ns.choose(rng).unwrap()}),
         62..=71 => json!({"t":"usr_set","k":uk.choose(rng).unwrap(),"v":uv.choose(rng).unwrap()}),
         72..=76 => json!({"t":"usr_del","k":uk.choose(rng).unwrap()}),
